@@ -287,6 +287,16 @@ Verdict run_sched_case(const Case &c, SchedProp which)
   else if (op == "dec" || op == "ver")
   {
     input = ref::encrypt_file(e.P, fparams(e));
+    if (which == SP_C04 && c.has("cut") && input.size() > 48 + 20 * (size_t)e.T + (size_t)c.geti("cut"))
+    {
+      // an authentic file that no encryption wrote: the last 1..15 bytes cut off and the tag recomputed by the key
+      // holder. Verify accepts it; the body ends in a partial block (possibly as the only content of a chunk). The
+      // operation has to return whatever it makes of it.
+      input.resize(input.size() - (size_t)c.geti("cut"));
+      bytes t = ref::hmac(e.hmode, e.key, input.data() + 48, input.size() - 48);
+      for (size_t i = 0; i < t.size(); i++)
+        input[10 + i] = t[i];
+    }
     expect_out = (op == "dec") ? e.P : bytes();
     bpf = (op == "dec") ? fills_of(padded(e.P.size()), e.chunk) : std::vector<uint32_t>();
   }
@@ -431,6 +441,8 @@ Verdict run_sched_case(const Case &c, SchedProp which)
     v.classes.push_back("input_read_error_injected");
   if (pc.out_fail_at >= 0)
     v.classes.push_back("output_write_error_injected");
+  if (which == SP_C04 && c.has("cut") && (op == "dec" || op == "ver"))
+    v.classes.push_back("authentic_file_with_partial_last_block");
   if (pc.in_noseek)
     v.classes.push_back("input_is_a_pipe");
   if (pc.fsize_hint == 0)
@@ -452,6 +464,7 @@ Verdict run_sched_case(const Case &c, SchedProp which)
     id.seti("rderr", pc.in_fail_at);
     id.seti("wrerr", pc.out_fail_at);
     id.seti("pipe", pc.in_noseek ? 1 : 0);
+    id.seti("cut", which == SP_C04 ? c.geti("cut") : 0);
     id.seti("rd1", rd1 ? pc.in_fail_at : -1);
     v.distinct = fnv64(id.text());
   }
@@ -754,7 +767,9 @@ Case gen_sched_case(SchedProp which)
       c.seti("rderr1", g::coin(50) ? g::range(0, (long)len) : (long)(chunk * g::range(0, q + 1) + g::oneof<long>({1, 8, 15, 16, 17, chunk / 2, chunk - 1})) % (long)len);
   }
   if (which == SP_C04 && wapi::has_scheduler() && (op == "enc" || op == "dec" || op == "ver") && g::coin(4))
-    c.seti("pipe_in", 1); // the input stream cannot seek (the file comes through a pipe): the operation may fail, it has to return
+    c.seti("pipe_in", 1);
+  if (which == SP_C04 && (op == "dec" || op == "ver") && g::coin(12))
+    c.seti("cut", g::range(1, 16)); // authentic, re-tagged, body not a whole number of blocks // the input stream cannot seek (the file comes through a pipe): the operation may fail, it has to return
   if ((op == "enc" || op == "dec" || op == "ver") && g::coin(10))
     c.seti("fsz0", 1);
   if (wapi::has_scheduler() && g::coin(which == SP_C04 ? 20 : 12))
